@@ -25,6 +25,26 @@ func (x *Explorer) builtin(st *State, f *Frame, ins ssa.Instruction, b *ssa.Buil
 		st.addFact(Ge(r, IntLit(0)))
 		return VInt{T: r}
 	case "append":
+		if sl, ok := c.Args[0].(*ssa.Slice); ok && sl.High != nil {
+			// append(s[:k], t...): the operand was cut short, so the result usually fits the
+			// capacity and Go writes it over the old contents, in place. Both outcomes are explored.
+			// (For an operand that was not re-sliced only the reallocating outcome is: see DESIGN.)
+			s, ok1 := args[0].(VSlice)
+			t, ok2 := args[1].(VSlice)
+			if v, isVal := ins.(ssa.Value); ok1 && ok2 && isVal && !st.dead {
+				if _, isDefer := ins.(*ssa.Defer); !isDefer {
+					nl := Add(s.Len, t.Len)
+					alt := x.fork(st)
+					alt.assume(Le(nl, s.Cap))
+					res := x.appendInPlace(alt, s, t)
+					af := alt.top()
+					af.env[v] = res
+					af.pc++
+					alt.trail = append(alt.trail[:len(alt.trail):len(alt.trail)], "append-in-place")
+					st.assume(Gt(nl, s.Cap))
+				}
+			}
+		}
 		return x.doAppend(st, args[0], args[1])
 	case "copy":
 		return x.doCopy(st, args[0], args[1])
@@ -177,6 +197,34 @@ func (x *Explorer) doAppend(st *State, s0, t0 Val) Val {
 		st.heapSet(name, Store(arr, ref, nrow))
 	}
 	return VSlice{Arr: ref, Off: s.Off, Len: nl, Cap: c, Elem: s.Elem}
+}
+
+// appendInPlace: append(s, t...) when the result fits s's capacity - the elements of t are written
+// behind s in s's own array (memmove semantics: t is read before anything is written).
+func (x *Explorer) appendInPlace(st *State, s, t VSlice) Val {
+	names, sorts := x.elemHeaps(st, s.Elem)
+	nl := Add(s.Len, t.Len)
+	res := VSlice{Arr: s.Arr, Off: s.Off, Len: nl, Cap: s.Cap, Elem: s.Elem}
+	var tval *Term
+	if isByteSlice(types.NewSlice(s.Elem)) && s.Len.IsLit() && s.Len.Int.Sign() == 0 {
+		tval = st.bval(t)
+	}
+	start := Add(s.Off, s.Len)
+	for i, name := range names {
+		arr := st.heapGet(name, ArrSort(ArrSort(sorts[i])))
+		row := Select(arr, s.Arr)
+		trow := Select(arr, t.Arr)
+		nrow := st.freshSym("append_inplace_row", ArrSort(sorts[i]))
+		k := Sym(fmt.Sprintf("ak!%d", x.fresh), SInt)
+		x.fresh++
+		st.assume(Forall([]*Term{k}, Implies(And(Ge(k, IntLit(0)), Lt(k, t.Len)), Eq(Select(nrow, Add(start, k)), Select(trow, Add(t.Off, k))))))
+		st.assume(Forall([]*Term{k}, Implies(Or(Lt(k, start), Ge(k, Add(start, t.Len))), Eq(Select(nrow, k), Select(row, k)))))
+		st.heapSet(name, Store(arr, s.Arr, nrow))
+	}
+	if tval != nil {
+		st.assume(Eq(st.bval(res), tval))
+	}
+	return res
 }
 
 func (x *Explorer) doCopy(st *State, d0, s0 Val) Val {
@@ -502,6 +550,39 @@ func (x *Explorer) libModel(st *State, f *Frame, ins ssa.Instruction, key string
 		st.addFact(Eq(UF("blen", SInt, digest), IntLit(32)))
 		st.addFact(Eq(UF("sha256^-1#0", SInt, h), bv))
 		return VArray{T: at, L: []*Term{row}}, true
+	case "strconv.FormatUint":
+		// decimal rendering: the same function of the value as fmt.Sprintf("%d", n) (decStr in contracts)
+		if b := asInt(args[1]); b.IsLit() && b.Int.Int64() == 10 {
+			n := asInt(args[0])
+			bx := UF("box:uint64", SInt, n)
+			st.addFact(Eq(UF("unbox:uint64", SInt, bx), n))
+			r := UF("decstr", SInt, bx)
+			st.addFact(Eq(UF("undecstr", SInt, r), bx))
+			st.addFact(Ge(UF("strlen", SInt, r), IntLit(1)))
+			return VInt{T: r}, true
+		}
+		return nil, false
+	case "encoding/json.Unmarshal":
+		// decoding into an integer variable: on success the variable holds a function of the bytes
+		// (jsonInt in contracts); on failure its content is not constrained
+		data, ok1 := args[0].(VSlice)
+		iv, ok2 := args[1].(VIface)
+		if !ok1 || !ok2 {
+			return nil, false
+		}
+		p, ok := iv.Dyn.(VPtr)
+		if !ok || p.Alloc != nil || p.Ref == nil || len(p.Path) != 0 {
+			return nil, false
+		}
+		pt := st.eng.pointee(p)
+		if b, isB := pt.Underlying().(*types.Basic); !isB || b.Info()&types.IsInteger == 0 {
+			return nil, false
+		}
+		errv := st.freshVal(sig.Results().At(0).Type(), "json_err").(VIface)
+		nv := st.freshVal(pt, "json_decoded")
+		st.assume(Implies(Eq(errv.Tag, IntLit(0)), Eq(asInt(nv), UF("jsonint", SInt, st.bval(data)))))
+		st.store(p, nv)
+		return errv, true
 	case "encoding/hex.EncodeToString":
 		b := args[0].(VSlice)
 		bv := st.bval(b)
